@@ -15,7 +15,7 @@ func init() {
 	property("C17",
 		"Static determinism and independence: (a) every range over a map only fills a set/map or a slice that is sorted before any other use; (b) no function outside package initialisation writes a package-level variable or a map/slice held in one (no state survives a compilation); (e) the blank line between top-level outputs is written exactly when something was emitted before: its guard reads a counter that goes up by one with every emitted output and with nothing else (not the position of the statement in the file, which also counts statements emitted elsewhere); (c) library code contains no goroutine, channel operation, select, or call into time / math/rand / crypto/rand / environment lookups, and reads files only in LoadFontConfig and main; (d) Emitter fields are written only by New, no emitter function updates a map it did not create itself (the text-label set is filled only in Emit), and the Parser fields written while parsing are exactly the token window, the scope stacks, the font cache, the constant table and the hoisting tables the property allows.",
 		[]string{"determinism of the Go runtime and of the standard-library functions used (fmt, strings, sort, strconv, regexp, encoding/json)", "go/ssa lowering is faithful to the source"},
-		"C17.a", "C17.b", "C17.c", "C17.d", "C17.e", "C17.f", "C20.a", "C06.b", "C20.d")
+		"C17.a", "C17.b", "C17.c", "C17.d", "C17.e", "C17.f", "C20.a", "C06.b", "C20.d", "C17.g")
 
 	register(&Rule{ID: "C17.a", Doc: "map iteration is order-insensitive (fills a set, or a slice sorted before use)", Floor: 4, Run: c17a})
 	register(&Rule{ID: "C17.b", Doc: "no package-level state is written outside init", Floor: 1, Run: c17b})
@@ -86,6 +86,58 @@ func c17a(c *Ctx) {
 							}
 							bad = "calls " + n
 						}
+					}
+				}
+			}
+			// values carried from one iteration to the next: only order-insensitive accumulations
+			// (integer arithmetic with the carried value, boolean flags set to a constant); a string
+			// built up in map order, or "the last key seen", depends on the order
+			for _, x := range next.Block().Instrs {
+				ph, isPhi := x.(*ssa.Phi)
+				if !isPhi {
+					break
+				}
+				if _, isSlice := ph.Type().Underlying().(*types.Slice); isSlice {
+					slices = append(slices, ph)
+					continue
+				}
+				var leaves []ssa.Value
+				seenV := map[ssa.Value]bool{ph: true}
+				var walk func(v ssa.Value)
+				walk = func(v ssa.Value) {
+					if seenV[v] {
+						return
+					}
+					seenV[v] = true
+					if q, ok := v.(*ssa.Phi); ok && body[q.Block()] {
+						for _, e := range q.Edges {
+							walk(e)
+						}
+						return
+					}
+					leaves = append(leaves, v)
+				}
+				for i, p := range next.Block().Preds {
+					if body[p] {
+						walk(ph.Edges[i])
+					}
+				}
+				for _, lf := range leaves {
+					okAcc := false
+					bt, _ := ph.Type().Underlying().(*types.Basic)
+					switch {
+					case bt != nil && bt.Info()&types.IsBoolean != 0:
+						_, okAcc = lf.(*ssa.Const)
+					case bt != nil && bt.Info()&types.IsInteger != 0:
+						if bo, ok := lf.(*ssa.BinOp); ok {
+							switch bo.Op {
+							case token.ADD, token.SUB, token.MUL, token.AND, token.OR, token.XOR:
+								okAcc = seenV[bo.X] && !dependsOn(bo.Y, seenV, 0) || (bo.Op != token.SUB && seenV[bo.Y] && !dependsOn(bo.X, seenV, 0))
+							}
+						}
+					}
+					if !okAcc {
+						bad = "carries " + pretty(c.term(fn, lf)) + " into the next iteration (" + ph.Comment + ")"
 					}
 				}
 			}
@@ -279,6 +331,79 @@ func c17b(c *Ctx) {
 			}
 		})
 	}
+	// the address of a package-level variable is only ever loaded from (or, in init, stored to):
+	// handing the address to a call — a method with pointer receiver such as (*sync.Map).Store,
+	// (*sync.Once).Do, atomic.AddInt64(&n, 1) — is a write the store scan above cannot see
+	nAddr := 0
+	for _, fn := range c.W.Funcs {
+		if isTestFunc(c.W, fn) || fn.Name() == "init" || strings.HasPrefix(fn.Name(), "init#") {
+			continue
+		}
+		fk := c.W.FuncKey(fn)
+		var check func(addr ssa.Value, g *ssa.Global, depth int)
+		check = func(addr ssa.Value, g *ssa.Global, depth int) {
+			refs := addr.Referrers()
+			if refs == nil || depth > 6 {
+				return
+			}
+			for _, r := range *refs {
+				nAddr++
+				switch y := r.(type) {
+				case *ssa.UnOp:
+					if y.Op == token.MUL {
+						continue
+					}
+				case *ssa.FieldAddr:
+					check(y, g, depth+1)
+					continue
+				case *ssa.IndexAddr:
+					check(y, g, depth+1)
+					continue
+				case *ssa.DebugRef:
+					continue
+				case *ssa.Store:
+					if y.Addr == addr {
+						continue // reported by the store scan
+					}
+				}
+				n++
+				c.Bad(fk+"/global-address-escapes["+g.Name()+"]", c.W.Pos(r.Pos()), "the address of package-level variable "+g.Name()+" is handed out ("+fmt.Sprintf("%T", r)+"): whatever receives it can change state that survives from one compilation to the next")
+			}
+		}
+		instrs(fn, func(in ssa.Instruction) {
+			for _, op := range in.Operands(nil) {
+				if op == nil || *op == nil {
+					continue
+				}
+				g, ok := (*op).(*ssa.Global)
+				if !ok || g.Pkg == nil || !c.W.InRepoPkg(g.Pkg.Pkg) {
+					continue
+				}
+				switch y := in.(type) {
+				case *ssa.UnOp:
+					if y.Op == token.MUL {
+						nAddr++
+						continue
+					}
+				case *ssa.FieldAddr:
+					check(y, g, 0)
+					continue
+				case *ssa.IndexAddr:
+					check(y, g, 0)
+					continue
+				case *ssa.DebugRef:
+					continue
+				case *ssa.Store:
+					if y.Addr == ssa.Value(g) {
+						continue
+					}
+				}
+				n++
+				c.Bad(fk+"/global-address-escapes["+g.Name()+"]", c.W.Pos(in.Pos()), "the address of package-level variable "+g.Name()+" is handed out ("+fmt.Sprintf("%T", in)+"): whatever receives it can change state that survives from one compilation to the next")
+			}
+		})
+	}
+	c.OK("global-addresses/scanned", "-", fmt.Sprintf("%d uses of addresses of package-level variables, all loads", nAddr))
 	c.OK("global-references/scanned", "-", fmt.Sprintf("%d uses of reference-holding package-level variables, all read-only", nRefUses))
 	// evidence that the rule looks at something: count globals
 	ng := 0
@@ -945,4 +1070,30 @@ func fieldOrigin(w *World, fn *ssa.Function, a *ssa.Alloc, fname string, depth i
 		}
 	}
 	return "", "", false
+}
+
+
+// dependsOn: v is computed from one of the values in set (through arithmetic, conversions, phis).
+func dependsOn(v ssa.Value, set map[ssa.Value]bool, depth int) bool {
+	if set[v] {
+		return true
+	}
+	if depth > 6 {
+		return true
+	}
+	switch x := v.(type) {
+	case *ssa.BinOp:
+		return dependsOn(x.X, set, depth+1) || dependsOn(x.Y, set, depth+1)
+	case *ssa.UnOp:
+		return dependsOn(x.X, set, depth+1)
+	case *ssa.Convert:
+		return dependsOn(x.X, set, depth+1)
+	case *ssa.Phi:
+		for _, e := range x.Edges {
+			if e != v && dependsOn(e, set, depth+1) {
+				return true
+			}
+		}
+	}
+	return false
 }
